@@ -352,6 +352,36 @@ def check_with_context(report, pm: PyModel):
             if contains_wrapper(t, with_ctx):
                 wrapper_fields.append(name)
         r6.instance({"class": ci.name, "wrapper_fields": wrapper_fields, "rebound": sorted(rebound)})
+        # C01.6c (seed C08e): a return leaf that hands back `self` un-rebound is sound only when there is nothing to alias at all
+        # (`not collisions`); a short-cut keyed on ONE field's module leaves the other wrapper fields in the old context.
+        if wrapper_fields:
+            from .common_rules import stmt_guards
+            from ..pymodel import _nnf
+            for guards, st in stmt_guards(fn):
+                if not isinstance(st, ast.Return) or st.value is None:
+                    continue
+                leaves = []
+
+                def split(e, conds):
+                    if isinstance(e, ast.IfExp):
+                        split(e.body, conds + _nnf(e.test, True, []))
+                        split(e.orelse, conds + _nnf(e.test, False, []))
+                    else:
+                        leaves.append((e, conds))
+                split(st.value, [g for g in guards if g[0] != "for"])
+                for e, conds in leaves:
+                    if not (isinstance(e, ast.Name) and e.id == "self"):
+                        continue
+                    r6.instance(f"{ci.name}.with_context: `return self` leaf under {conds}")
+                    import re as _re
+                    # `collisions == self.<x>.collisions` (already in that context) is not a fact about a field's shape
+                    stripped = [_re.sub(r"self(\.\w+)*\.collisions\b", "CTX", c_) for c_, _p in conds]
+                    keyed_on_field = [f for f in wrapper_fields for c_ in stripped if _re.search(r"\bself\." + f + r"\b", c_)]
+                    mentions_coll = any("collisions" in c_ for c_, _p in conds)
+                    r6.check(mentions_coll and not keyed_on_field, ci.module.path, st.lineno,
+                             f"{ci.name}.with_context returns self un-rebound when {[('' if p_ else 'not ') + c_ for c_, p_ in conds]}",
+                             f"{ci.name}.with_context may skip re-binding only on a test of `collisions` itself (empty, or equal to the current context); under a test of one field's shape the wrapper "
+                             f"fields {wrapper_fields} keep the old context and a colliding module renders unaliased")
         for f in wrapper_fields:
             if (ci.name, f) in WITH_CONTEXT_EXCEPTIONS:
                 r6.note(f"exception {ci.name}.{f}: {WITH_CONTEXT_EXCEPTIONS[(ci.name, f)]}")
